@@ -494,7 +494,11 @@ def r5_shape_to_mode(ctx: Ctx) -> None:
     stores = [s for s in walk_no_nested(outer_if) if isinstance(s, ast.Assign) and unparse(s.targets[0]) == "addressing_mode"]
     if len(stores) != 1:
         raise AnalysisError("parse_opcode: expected one re-assignment of addressing_mode under the trailing-index test")
+    from ..match import inline as _inl, last_assignments as _la
+
     v = stores[0].value
+    for _ in range(3):
+        v = _inl(v, {k: x for k, x in _la(po.node).items() if k != "addressing_mode"})
     ge = ctx.repo.func(NODES, "OpcodeNode._get_emitter")
     gg = CFG(ge.node)
     downstream = False
@@ -556,7 +560,9 @@ def _allowed_pairs(test: ast.AST, inner: str, outer: str) -> set[tuple[str, str]
 def r6_rejection_discipline(ctx: Ctx) -> None:
     ge = ctx.repo.func(NODES, "OpcodeNode._get_emitter")
     subs = [n for n in walk_no_nested(ge.node) if isinstance(n, ast.Subscript) and isinstance(n.ctx, ast.Load)]
-    texts = [unparse(s) for s in subs]
+    from ..match import canonical_subscripts
+
+    texts = canonical_subscripts(ge.node)
     ctx.check("snes_opcode_table[self.opcode][self.addressing_mode]" in texts, "_get_emitter:mode-lookup",
               f"plain subscript by mnemonic then addressing mode (found {texts})")
     ctx.check(any(t.endswith("[self.index]") for t in texts), "_get_emitter:index-lookup", "plain subscript by index letter")
